@@ -1,14 +1,35 @@
 #!/usr/bin/env python3
-"""Prints markdown tables for DESIGN.md: (1) findings and their disposition from known_findings.json,
-(2) seeded changes and which check components caught them from seeded/*/meta.json."""
-import json, glob
-k = json.load(open('/verif/known_findings.json'))
-print("| property | status | finding | commit |\n|---|---|---|---|")
-for e in sorted(k, key=lambda e: (e['property'], e['signature'])):
-    sig = e['signature'].replace('|', '/')
-    print(f"| {e['property']} | {e['status']} | {sig} | {e.get('commit','')} |")
-print()
-print("| seeded change | property | needs to manifest | caught by |\n|---|---|---|---|")
-for f in sorted(glob.glob('/verif/seeded/*/meta.json')):
-    m = json.load(open(f))
-    print(f"| {m['id']} | {m['property']} | {m['needs_to_manifest'].replace('|','/')} | {'; '.join(m.get('detected_by', ['(not yet run)']))} |")
+"""Regenerates the two tables of DESIGN.md section 13.17 between the markers
+<!-- TABLE:findings --> ... <!-- /TABLE:findings --> and <!-- TABLE:seeded --> ... <!-- /TABLE:seeded -->
+from known_findings.json and seeded/*/meta.json.   usage: tools/gen_tables.py [--write]"""
+import glob, json, re, sys
+
+def findings():
+    k = json.load(open('/verif/known_findings.json'))
+    out = ["| property | status | finding | /repo commit |", "|---|---|---|---|"]
+    for e in sorted(k, key=lambda e: (e['property'], e['signature'])):
+        sig = e['signature'].replace('|', '/')
+        out.append(f"| {e['property']} | {e['status']} | {sig} | {e.get('commit','')} |")
+    return "\n".join(out)
+
+def seeded():
+    out = ["| seeded change | property | needs to manifest | caught by |", "|---|---|---|---|"]
+    for f in sorted(glob.glob('/verif/seeded/*/meta.json')):
+        m = json.load(open(f))
+        d = m.get('detected_by', '(not yet run)')
+        d = d if isinstance(d, str) else '; '.join(d)
+        out.append(f"| {m['id']} | {m['property']} | {m['needs_to_manifest'].replace('|','/')} | {d} |")
+    return "\n".join(out)
+
+tabs = {"findings": findings(), "seeded": seeded()}
+if "--write" in sys.argv:
+    p = '/verif/DESIGN.md'
+    s = open(p).read()
+    for name, t in tabs.items():
+        a, b = f"<!-- TABLE:{name} -->", f"<!-- /TABLE:{name} -->"
+        i, j = s.index(a) + len(a), s.index(b)
+        s = s[:i] + "\n" + t + "\n" + s[j:]
+    open(p, 'w').write(s)
+    print("DESIGN.md tables rewritten")
+else:
+    print(tabs["findings"]); print(); print(tabs["seeded"])
